@@ -48,7 +48,8 @@ GEN_MODULES = ['Divisor', 'RankScore']
 REQUIRED = ['ha_house_monotone', 'ha_house_monotone_general', 'ha_vote_monotone', 'ha_vote_monotone_general',
             'additive_winner_monotone', 'additive_winner_monotone_new', 'plurality_monotone_switch', 'plurality_monotone_new',
             'scorer_monotone', 'positional_monotone_lift', 'positional_monotone_new', 'approval_monotone_approve',
-            'approval_monotone_new', 'score_sum_monotone_raise', 'score_sum_monotone_new',
+            'approval_monotone_new', 'approval_split_monotone_approve', 'approval_split_monotone_new',
+            'score_sum_monotone_raise', 'score_sum_monotone_new',
             'score_sum_unscored_monotone_raise', 'score_sum_unscored_monotone_new',
             'bucklin_monotone_lift', 'bucklin_monotone_bullet', 'bucklin_default_monotone_lift',
             'bucklin_default_monotone_bullet', 'copeland_monotone', 'minimax_monotone',
@@ -66,8 +67,6 @@ UNPROVED = ['score_gen_monotone_raise (ScoreVoting with function sum / mean / me
             'score_truncated_monotone_raise (ScoreVoting with truncation / min_count / mean: evaluated by the {score: count} table '
             'model of C12, checked by correspondence and oracle on every raise; the theorems cover the plain sum with any '
             'numeric unscored value)',
-            'approval_split_monotone (ApprovalToSimpleVotes(split=True), satisfaction approval: modelled as evalApprovalSplit, checked by '
-            'correspondence and oracle; the approval theorems cover split=False)',
             "score_sum_monotone for unscored_value='min' (modelled through C12's {score: count} table model, checked by "
             'correspondence and oracle; the theorems cover unscored_value None and every numeric value)',
             'bucklin_default_monotone / preference_addition_default_monotone on profiles WITH shared ranks (the even split over the compatible strict orders is '
